@@ -71,6 +71,27 @@ func vMkWorld() *vWorld {
 			t.due = e.lastChange.UnixNano() + int64(w.r)
 		}
 	}
+	// recovery timers that were stopped by a later state change - but had already expired, so that
+	// their callback still runs (time.Timer.Stop reports false and cannot cancel it): they captured
+	// an older lastChange of their endpoint
+	if w.r > 0 && verifCase("firestopped") == 1 {
+		for i := 0; i < vE; i++ {
+			e := w.eps[i]
+			if verifBool("hasStopped" + verifD(i)) {
+				cur := e.lastChange
+				old := time.Unix(0, int64(verifInt("stoppedCapture"+verifD(i))))
+				verifAssume(old.UnixNano() >= 0 && old.Before(cur))
+				fc := e.futureChange
+				e.lastChange = old
+				m.scheduleUnavailable(e)
+				t := vTimers[len(vTimers)-1]
+				t.kind, t.stopped = 1, true
+				t.due = old.UnixNano() + int64(w.r)
+				verifAssume(t.due <= vNow)
+				e.lastChange, e.futureChange = cur, fc
+			}
+		}
+	}
 	// an endpoint object that was removed while recovering: its timer is still live
 	if w.r > 0 && verifBool("hasOrphan") {
 		w.orphan = &endpoint{id: verifChoose("orphanId", "A", "B", "C"), priority: verifInt("orphanPrio"), status: recovering, lastChange: time.Unix(0, int64(verifInt("orphanLastChange")))}
@@ -218,9 +239,14 @@ func VerifH_mestep() {
 		i := verifInt("timer")
 		verifAssume(i >= 0 && i < len(vTimers))
 		t := vTimers[i]
-		verifAssume(t.live())
-		for j := 0; j < len(vTimers); j++ {
-			verifAssume(!vTimers[j].live() || vTimers[j].due >= t.due)
+		if verifCase("firestopped") == 1 {
+			verifAssume(t.stopped && !t.fired) // an expired timer whose Stop() came too late
+			verifReach("stopped timer fired")
+		} else {
+			verifAssume(t.live())
+			for j := 0; j < len(vTimers); j++ {
+				verifAssume(!vTimers[j].live() || vTimers[j].due >= t.due)
+			}
 		}
 		if vNow < t.due {
 			vNow = t.due
@@ -328,6 +354,14 @@ func VerifH_mestep() {
 			same = same && v0.listed[i] == v1.listed[i] && (!v0.listed[i] || (v0.status[i] == v1.status[i] && v0.prio[i] == v1.prio[i]))
 		}
 		verifAssert(same, "C13: report for an unknown endpoint changed the state")
+	}
+	if op == 2 && verifCase("firestopped") == 1 {
+		// an outdated recovery timer (its endpoint changed state since it was armed) must do nothing
+		same := cur0 == m.current && timers0 == len(vTimers)
+		for i := 0; i < vE; i++ {
+			same = same && v0.listed[i] == v1.listed[i] && (!v0.listed[i] || (v0.status[i] == v1.status[i] && v0.prio[i] == v1.prio[i]))
+		}
+		verifAssert(same, "C13,C14: an outdated recovery timer changed the state (a recovering endpoint keeps its window; the current endpoint stays current)")
 	}
 	if op == 2 {
 		// a recovery timer firing in time makes its endpoint unavailable and switches at once if something is available
